@@ -104,7 +104,13 @@ def run(ctx):
     rets = [n for n in walk_no_nested(sp.node) if isinstance(n, ast.Return)]
     okret = False
     if len(rets) == 1 and isinstance(rets[0].value, ast.Tuple) and len(rets[0].value.elts) == 2 and inv and lat:
-        rx, rp = src(rets[0].value.elts[0]), src(rets[0].value.elts[1])
+        def _bare(e_):
+            # tensor -> array conversions do not change which quantity is returned
+            while isinstance(e_, ast.Call) and isinstance(e_.func, ast.Attribute) and e_.func.attr in ("detach", "cpu", "numpy", "astype", "copy", "double", "float"):
+                e_ = e_.func.value
+            return e_
+
+        rx, rp = src(_bare(rets[0].value.elts[0])), src(_bare(rets[0].value.elts[1]))
         okret = rx == src(inv[0][1]["x"]) and rp in [src(b["lp"]) for n, b in lat]
     ctx.ob("R-SIB", "C08.2", sp, "returns the generated samples with the density computed for them", okret, "")
     ctx.floor("C08.2", 9)
